@@ -399,4 +399,20 @@ def reverseComplement (b : Bag) : Bag × Bool :=
     let r := revcompRows (pairs b)
     ({ b with rows := withSeqs b.rows r.1 }, r.2)
 
+/-- overwrite residue `j` of the row with pointer identity `i` -/
+def setInRow (i j : Nat) (c : Byte) (rows : List Row) : List Row :=
+  rows.map fun r => if r.id == i then { r with seq := setAt r.seq j c } else r
+
+/-- `align.ReplaceChar(seqname, site, newchar)`: the site is checked against the cached length, then the
+name is looked up in the index and the residue written through the pointer.  `none` = index panic (that
+row is shorter than the cached length: possible only after an operation that reported an error). -/
+def replaceChar (name : String) (site : Int) (c : Byte) (b : Bag) : Option (Bag × Bool) :=
+  if site < 0 then some (b, true)
+  else if site ≥ b.length then some (b, true)
+  else match idxLookup name b.index with
+    | none => some (b, true)
+    | some i =>
+      if b.rows.any (fun r => r.id == i && r.seq.length ≤ site.toNat) then none
+      else some ({ b with rows := setInRow i site.toNat c b.rows }, false)
+
 end Gv.Model
